@@ -256,6 +256,89 @@ theorem savepoint_stays_restorable (fs fs1 : FS) (jobURI' : URI) (snap : JobSnap
     subst this
     exact hid a ha hid'
 
+/-! ## creation is not atomic (D53, repaired by beb71d2)
+
+`artifact_complete` and `savepoint_roundtrip` above are about a creation that sees ONE storage value. The real
+creation makes one storage call after the other while the job runs on (`createArtifactS`: a `Sched` of environment
+moves between the calls; `DocMode` = how the operator's document reaches the artifact, regenerated from the source
+as `docMode`). FULL STATEMENT, for the environment the running job really is (operators only ADD entries to their
+documents or drop entries of non-retained checkpoints, never change an entry; WAL, table and job snapshot files are
+never rewritten, only deleted):
+
+    ∀ sch in that discipline, createArtifactS .byId .writeRead fs j snap sch = (fs1, true) → the artifact in fs1
+    restores snap with the images of the savepoint's checkpoint
+
+* for the former code (`DocMode.copyFile`: the document FILE copied last) it is false:
+  `artifact_complete_counterexample` (a retention update just before the document copy);
+* `d53_repair_witness`: the repaired code gives a restorable artifact under that very schedule;
+* proved for every schedule that leaves the files the creation handles alone, for both modes:
+  `savepoint_roundtrip_interleaved_partial`. NOT proved: the full discipline above (document rewrites that keep the
+  listed entry, deletions of already copied files) for `.writeRead`; those schedules are exercised on the real code by
+  the held creations of the harness (`release k hold n … resume`), whose outputs the model computes with
+  `createArtifactS docMode`. -/
+
+/-- the files `CreateSavepointArtifact` handles when run on `fs` -/
+def Handled (fs : FS) (jobURI : URI) (snap : JobSnap) (u : URI) : Prop :=
+  u = jobURI ∨ ∃ o ∈ snap.ops, u = o.uri ∨ ∃ files, opFiles .byId fs (.work o.uri) o = some files ∧ u ∈ files
+
+/-- **savepoint_roundtrip_interleaved_partial** (non-atomic creation, either document mode). Excluded: environment
+moves on the files the creation handles while it runs (see the full statement above). -/
+theorem savepoint_roundtrip_interleaved_partial (m : DocMode) (fs fs1 w : FS) (jobURI : URI) (snap : JobSnap) (sch : Sched)
+    (hquiet : ∀ e ∈ sch, ∀ x ∈ e, ¬ Handled fs jobURI snap x.uri)
+    (hc : createArtifactS .byId m fs jobURI snap sch = (fs1, true))
+    (hj : read fs (.work jobURI) = some (.job snap))
+    (hw : ∀ p, p.inSp snap.id = true → read w p = read fs1 p) :
+    ∃ w', loadFromSavepoint .byId w snap.id = (w', some snap) ∧
+      ∀ o ∈ snap.ops, openDB w' o = openDB fs o ∧ (openDB fs o).isSome := by
+  obtain ⟨hok, hsame⟩ := createArtifactS_sim .byId m (Handled fs jobURI snap) fs jobURI snap sch hquiet
+    (Or.inl rfl) (fun o ho => Or.inr ⟨o, ho, Or.inl rfl⟩)
+    (fun o ho files hf u hu => Or.inr ⟨o, ho, Or.inr ⟨files, hf, hu⟩⟩)
+  rw [hc] at hok hsame
+  cases hca : createArtifact .byId fs jobURI snap with
+  | mk fsA ok =>
+    rw [hca] at hok hsame
+    simp only at hok hsame
+    subst hok
+    apply savepoint_roundtrip fs fsA w jobURI snap hca hj
+    intro p hp
+    rw [hw p hp]
+    exact hsame p (by cases p <;> simp_all [Path.inSp, Path.isWork])
+
+/-- the regenerated source fact says which mode the code is in; the theorem above covers it either way -/
+theorem savepoint_roundtrip_interleaved_current (fs fs1 w : FS) (jobURI : URI) (snap : JobSnap) (sch : Sched)
+    (hquiet : ∀ e ∈ sch, ∀ x ∈ e, ¬ Handled fs jobURI snap x.uri)
+    (hc : createArtifactS .byId docMode fs jobURI snap sch = (fs1, true))
+    (hj : read fs (.work jobURI) = some (.job snap))
+    (hw : ∀ p, p.inSp snap.id = true → read w p = read fs1 p) :
+    ∃ w', loadFromSavepoint .byId w snap.id = (w', some snap) ∧
+      ∀ o ∈ snap.ops, openDB w' o = openDB fs o ∧ (openDB fs o).isSome :=
+  savepoint_roundtrip_interleaved_partial docMode fs fs1 w jobURI snap sch hquiet hc hj hw
+
+/-- one operator whose document already holds checkpoint 2; while the artifact of savepoint 1 is copied the operator
+applies the retention `[2]` (document rewritten, WAL of checkpoint 1 deleted) just before the document is copied -/
+def d53FS : FS :=
+  [ (.work ⟨"op0/", "checkpoints"⟩, .doc [⟨1, [⟨"op0/", "0.wal"⟩], [[]]⟩, ⟨2, [⟨"op0/", "1.wal"⟩], [[]]⟩]),
+    (.work ⟨"op0/", "0.wal"⟩, .blob "w0"), (.work ⟨"op0/", "1.wal"⟩, .blob "w1"),
+    (.work (jobURI 1), .job ⟨1, [⟨"op0", 1, ⟨"op0/", "checkpoints"⟩⟩], "src"⟩) ]
+def d53Snap : JobSnap := ⟨1, [⟨"op0", 1, ⟨"op0/", "checkpoints"⟩⟩], "src"⟩
+/-- storage calls: read document, copy 0.wal, copy document, copy job snapshot -/
+def d53Sched : Sched :=
+  [[], [], [.put ⟨"op0/", "checkpoints"⟩ (.doc [⟨2, [⟨"op0/", "1.wal"⟩], [[]]⟩]), .del ⟨"op0/", "0.wal"⟩], []]
+
+/-- **artifact_complete_counterexample** (D53, the code before beb71d2): the creation reports success, yet the artifact cannot be restored:
+its document has no entry for the savepoint's checkpoint. -/
+theorem artifact_complete_counterexample :
+    (createArtifactS .byId .copyFile d53FS (jobURI 1) d53Snap d53Sched).2 = true ∧
+    (loadFromSavepoint .byId (wipe (createArtifactS .byId .copyFile d53FS (jobURI 1) d53Snap d53Sched).1) 1).2 = none ∧
+    (openDB d53FS ⟨"op0", 1, ⟨"op0/", "checkpoints"⟩⟩).isSome = true := by decide
+
+/-- with the proposed repair the same schedule yields an artifact that restores the savepoint's checkpoint -/
+theorem d53_repair_witness :
+    (createArtifactS .byId .writeRead d53FS (jobURI 1) d53Snap d53Sched).2 = true ∧
+    (loadFromSavepoint .byId (wipe (createArtifactS .byId .writeRead d53FS (jobURI 1) d53Snap d53Sched).1) 1).2 = some d53Snap ∧
+    openDB (loadFromSavepoint .byId (wipe (createArtifactS .byId .writeRead d53FS (jobURI 1) d53Snap d53Sched).1) 1).1
+        ⟨"op0", 1, ⟨"op0/", "checkpoints"⟩⟩ = openDB d53FS ⟨"op0", 1, ⟨"op0/", "checkpoints"⟩⟩ := by decide
+
 /-- **restart_ids_fresh** (D49 repaired): a job started from a savepoint never hands out a checkpoint id again that
 is the savepoint's or that of a job snapshot file still in its file store (checkpoints written after the savepoint
 by the run that is being rolled back). The first id it hands out — for a checkpoint or a savepoint — is above all
